@@ -49,6 +49,10 @@ Definition source_wiring_ok : bool :=
        [(bs "return-value", bs "wait-exit-code");
         (bs "stdout", bs "stdout-capture");
         (bs "stderr", bs "stderr-capture")]
+  && is_nil runcmd_other_cmd_fields        (* no WaitDelay, Cancel, Env, SysProcAttr, Stdin ... *)
+  && (length intotorun_cmdargs_calls =? 2)%nat
+  && forallb (fun xy => str_eqb (fst xy) (snd xy))
+       (combine intotorun_cmdargs_calls [bs "len(cmdArgs)"; bs "RunCommand(cmdArgs, runDir)"])
   && zopt_eqb waiterr_default (-1) && zopt_eqb waiterr_on_nil 0
   && match waiterr_on_exiterror with ExExitStatus => true | _ => false end.
 
